@@ -51,6 +51,32 @@ var c18RootTypes = []string{"swap.SwapService", "swap.SwapStateMachine", "policy
 	"lwk.electrumTxWatcher", "electrum.liquidBlockHeaderSubscriber"}
 var c18RootFuncs = []string{"peersync.poller.start", "peersync.poller.PollAllPeers", "peersync.poller.ForcePollAllPeers"}
 
+// Field classes that are tracked (C19): the fields of the long-lived objects that several goroutines reach -- the swap
+// service with its machines and their data, the policy, the watchers, the block-header subscriber, the peer-sync
+// poller -- and the package-level variables of the analysed packages. Values of other struct types (messages, parsed
+// requests, peers loaded from the store for one call, observers) are created and used by one goroutine at a time or are
+// immutable after construction; the extractor is instance-insensitive and would otherwise report every such type.
+var c18SharedTypes = map[string]bool{
+	"swap.SwapService": true, "swap.SwapStateMachine": true, "swap.SwapData": true, "swap.SwapServices": true, "swap.timeOutService": true,
+	"policy.Policy": true,
+	"txwatcher.BlockchainRpcTxWatcher": true, "txwatcher.CommonBlockchainObserver": true,
+	"electrum.liquidBlockHeaderSubscriber": true,
+	"lwk.electrumTxWatcher": true,
+	"peersync.poller": true,
+}
+
+func c18Tracked(cls string) bool {
+	i := strings.LastIndex(cls, ".")
+	if i < 0 {
+		return false
+	}
+	owner := cls[:i]
+	if !strings.Contains(owner, ".") {
+		return true // package-level variable: pkg.name
+	}
+	return c18SharedTypes[owner]
+}
+
 type c18Op struct {
 	K    string `json:"k"`
 	A    string `json:"a"`
@@ -265,6 +291,35 @@ type c18W struct {
 	nclos    *int
 	params   map[*types.Var]string
 	lits     map[*ast.FuncLit]string
+	fresh    map[*types.Var]bool // locals bound to an object allocated in this function (&T{...}, T{...}, new(T)): not shared yet
+}
+
+func c18IsAlloc(e ast.Expr) bool {
+	switch x := ast.Unparen(e).(type) {
+	case *ast.CompositeLit:
+		return true
+	case *ast.UnaryExpr:
+		if x.Op == token.AND {
+			_, ok := ast.Unparen(x.X).(*ast.CompositeLit)
+			return ok
+		}
+	case *ast.CallExpr:
+		if id, ok := x.Fun.(*ast.Ident); ok && id.Name == "new" {
+			return true
+		}
+	}
+	return false
+}
+
+func (w *c18W) isFresh(e ast.Expr) bool {
+	id, ok := ast.Unparen(e).(*ast.Ident)
+	if !ok || w.fresh == nil {
+		return false
+	}
+	if v, ok := w.info.Uses[id].(*types.Var); ok {
+		return w.fresh[v]
+	}
+	return false
 }
 
 func (w *c18W) pos(p token.Pos) (string, int) {
@@ -287,6 +342,9 @@ func (w *c18W) note(p token.Pos, what string) {
 }
 
 func (w *c18W) emit(p token.Pos, k, a string) {
+	if (k == "Rd" || k == "Wr") && !c18Tracked(a) {
+		return
+	}
 	f, l := w.pos(p)
 	w.fn.Ops = append(w.fn.Ops, c18Op{K: k, A: a, File: f, Line: l})
 	if w.rdepth > 0 {
@@ -394,7 +452,7 @@ func (w *c18W) selRead(e *ast.SelectorExpr) {
 		return
 	}
 	w.expr(e.X)
-	if sel.Kind() == types.FieldVal {
+	if sel.Kind() == types.FieldVal && !w.isFresh(e.X) {
 		if cls, ok := w.fieldClass(sel); ok && w.isDataField(sel.Type()) {
 			w.emit(e.Sel.Pos(), "Rd", cls)
 		}
@@ -420,7 +478,7 @@ func (w *c18W) lhs(e ast.Expr) {
 			return
 		}
 		w.expr(x.X)
-		if sel.Kind() == types.FieldVal {
+		if sel.Kind() == types.FieldVal && !w.isFresh(x.X) {
 			if cls, ok := w.fieldClass(sel); ok && w.isDataField(sel.Type()) {
 				w.emit(x.Sel.Pos(), "Wr", cls)
 			}
@@ -468,6 +526,30 @@ func (w *c18W) starRead(x *ast.StarExpr) {
 					w.emit(x.Pos(), "Rd", c18TypeName(n)+"."+st.Field(i).Name())
 				}
 			}
+		}
+	}
+}
+
+func (w *c18W) escapeRead(at ast.Expr, t types.Type, depth int) {
+	if t == nil || depth == 0 || w.isFresh(at) {
+		return
+	}
+	n := c18Named(t)
+	if n == nil || n.Obj().Pkg() == nil || !c18SharedTypes[c18TypeName(n)] {
+		return
+	}
+	st, ok := n.Underlying().(*types.Struct)
+	if !ok {
+		return
+	}
+	for i := 0; i < st.NumFields(); i++ {
+		f := st.Field(i)
+		if !w.isDataField(f.Type()) {
+			continue
+		}
+		w.emit(at.Pos(), "Rd", c18TypeName(n)+"."+f.Name())
+		if _, isPtr := f.Type().Underlying().(*types.Pointer); isPtr {
+			w.escapeRead(at, f.Type(), depth-1)
 		}
 	}
 }
@@ -814,6 +896,11 @@ func (w *c18W) call(c *ast.CallExpr, mode string) {
 		}
 		w.emit(c.Pos(), opSlot, name)
 	case "ext", "extiface":
+		// a shared object handed to code outside the analysed packages (json.Marshal(swap), fmt): assumed to be read
+		// completely, including the shared objects its fields point to
+		for _, a := range c.Args {
+			w.escapeRead(a, w.info.TypeOf(a), 2)
+		}
 		// func values handed to code outside the analysed packages: assumed to be invoked, here (unless this is a go
 		// statement) and/or later from another goroutine
 		for _, a := range c.Args {
@@ -948,6 +1035,14 @@ func (w *c18W) stmt(s ast.Stmt) {
 		if len(x.Lhs) == len(x.Rhs) {
 			for i := range x.Lhs {
 				w.assignFlow(x.Lhs[i], x.Rhs[i])
+				if id, ok := x.Lhs[i].(*ast.Ident); ok && x.Tok == token.DEFINE && c18IsAlloc(x.Rhs[i]) {
+					if v, ok := w.info.Defs[id].(*types.Var); ok {
+						if w.fresh == nil {
+							w.fresh = map[*types.Var]bool{}
+						}
+						w.fresh[v] = true
+					}
+				}
 			}
 		}
 	case *ast.IncDecStmt:
@@ -1503,10 +1598,12 @@ func c18Render(sk *c18Skel) (string, map[string]interface{}) {
 	}
 	fmt.Fprintf(&b, "Definition skel_roots : list N := [%s].\n\n", strings.Join(rs, "; "))
 	fmt.Fprintf(&b, "Definition skel_warnings : list string := %s.\n\n", CoqStrList(sk.Warnings))
+	b.WriteString("(* blocking primitives the skeleton does not model (evidence only) *)\n")
+	fmt.Fprintf(&b, "Definition skel_blocking : list string := %s.\n\n", CoqStrList(sk.Blocking))
 	js := map[string]interface{}{
 		"fn_names": fns.names, "lock_names": locks.names, "field_names": fields.names, "iface_names": ifs.names, "slot_names": slots.names,
 		"funcs": sk.Funcs, "ifaces": sk.Ifaces, "slots": sk.Slots, "roots": sk.Roots, "warnings": sk.Warnings, "blocking": sk.Blocking,
-		"anchored_files": c18Anchored, "root_types": c18RootTypes, "root_funcs": c18RootFuncs,
+		"anchored_files": c18Anchored, "root_types": c18RootTypes, "root_funcs": c18RootFuncs, "shared_types": c18SharedTypes,
 	}
 	return b.String(), js
 }
